@@ -4,7 +4,7 @@
    starts with its tag, the tag dispatches to its field, the field decoder reads the group back
    leaving what follows) are exactly what the C01 field lemmas provide — the Example below discharges
    them for a shipped packet. *)
-From Zvt Require Import Base Length Cp437 Encoding EncodingProps Codec Lookup CodecRoundtrip CodecTags CodecFields CodecCanon CanonClass CanonRoundtrip CanonShipped Client NestedFinding.
+From Zvt Require Import Base Length Cp437 Encoding EncodingProps Codec Lookup CodecRoundtrip CodecTags CodecFields CodecCanon CanonClass CanonRoundtrip CanonShipped CodecFrame Client NestedFinding.
 From Zvt.gen Require Import Layouts Tables.
 From Coq Require Import Permutation.
 Open Scope N_scope.
@@ -118,6 +118,17 @@ Proof. vm_compute. reflexivity. Qed.
 (* OPEN KNOWN FINDING (DESIGN 16.2, known_findings.json): the last sentence of the property is REFUTED for a tag standing inside a
    nested container when its number is a field of the enclosing struct not seen so far: the unread rest of the container is
    decoded as that field (amount = 123) where the bytes preceding the tag carry no amount; a tag no level knows is harmless *)
+(* the mechanism, for EVERY length style, tag and inner decoder (that hands back a tail of its input): what a framed element
+   hands back is what its decoder left UNREAD of the element, followed by what stands behind the element — the unread rest is not
+   skipped.  For a value read completely (every canonical value) that is just what stands behind it; for a container whose loop
+   stopped at a tag it does not know it is that tag and the rest of the container, which the enclosing loop then reads *)
+Theorem C13_remainder_rule : forall (A : Type) ls big tag (k : bytes -> res (A * bytes)) bs v r,
+  (forall inp x rem, k inp = Ok (x, rem) -> exists used, inp = used ++ rem) ->
+  framed_dec ls big tag k bs = Ok (v, r) ->
+  exists hdr element behind unread,
+    bs = hdr ++ element ++ behind /\ k element = Ok (v, unread) /\ r = unread ++ behind.
+Proof. exact @remainder_rule. Qed.
+
 Theorem C13_refuted_for_nested_collision :
   dec_struct FUEL nf_outer [6; 7; 4; 0; 0; 0; 0; 1; 35] = Ok (VRec [VSome (VInt 123); VSome (VRec [VNone])], [])
   /\ dec_struct FUEL nf_outer [6; 0] = Ok (VRec [VNone; VSome (VRec [VNone])], []).
@@ -143,3 +154,4 @@ Print Assumptions C13_unknown_tag_is_a_tail.
 Print Assumptions C13_refuted_for_nested_collision.
 Print Assumptions C13_refuted_on_status_information.
 Print Assumptions C13_nested_foreign_tag_no_level_knows.
+Print Assumptions C13_remainder_rule.
